@@ -27,21 +27,35 @@ Fits24(P) == P = 0 \/ LET a == Abs(P) IN a < 16777216 \/ a % Pow2(Log2(a) - 23) 
 
 ZeroRegs == [i \in 1..64 |-> Zero]
 
-(* geometry set-up from viewBox (float32 bits) and target rectangle <<x0,y0,x1,y1>> *)
+(* geometry set-up from viewBox (float32 bits) and target rectangle <<x0,y0,x1,y1>>.        *)
+(* Exact mode (approx = FALSE): the scale is dyadic, sx / sy hold it in units of 2^-10.     *)
+(* Approximate mode (approx = TRUE): any other positive scale dx/wx; coordinates are then   *)
+(* computed by staged integer division (error < 2^-15 px) and compared within the           *)
+(* tolerance, never for equality.                                                            *)
 Geo(vb, rect) ==
   LET a  == [i \in 1..4 |-> AsScaled(vb[i], 6)]
       dx == rect[3] - rect[1]
       dy == rect[4] - rect[2]
       wx == a[3].k - a[1].k
       wy == a[4].k - a[2].k
-      ok == /\ \A i \in 1..4 : a[i].ok /\ Abs(a[i].k) <= 65536
-            /\ wx > 0 /\ wy > 0 /\ dx > 0 /\ dy > 0 /\ dx <= 8192 /\ dy <= 8192
-            /\ (dx * 65536) % wx = 0 /\ (dy * 65536) % wy = 0
-            /\ (dx * 65536) \div wx < 16777216 /\ (dy * 65536) \div wy < 16777216
-  IN [ok |-> ok,
-      sx |-> IF ok THEN (dx * 65536) \div wx ELSE 0,        \* x scale in units of 2^-10
-      sy |-> IF ok THEN (dy * 65536) \div wy ELSE 0,
+      sane == /\ \A i \in 1..4 : a[i].ok /\ Abs(a[i].k) <= 65536
+              /\ wx > 0 /\ wy > 0 /\ dx > 0 /\ dy > 0 /\ dx <= 8192 /\ dy <= 8192
+              /\ wx <= 65536 /\ wy <= 65536
+      dyadic == /\ sane
+                /\ (dx * 65536) % wx = 0 /\ (dy * 65536) % wy = 0
+                /\ (dx * 65536) \div wx < 16777216 /\ (dy * 65536) \div wy < 16777216
+  IN [ok |-> sane, approx |-> sane /\ ~dyadic,
+      sx |-> IF dyadic THEN (dx * 65536) \div wx ELSE 0,        \* x scale in units of 2^-10
+      sy |-> IF dyadic THEN (dy * 65536) \div wy ELSE 0,
+      dx |-> dx, dy |-> dy, wx |-> wx, wy |-> wy,
       mx |-> a[1].k, my |-> a[2].k]
+
+(* floor(k * d * 2^16 / w) for |k| <= 2^17, 0 < d <= 2^13, 0 < w <= 2^16, result magnitude < 2^30 *)
+ScaleApprox(k, d, w) ==
+  LET n == k * d                              \* |n| < 2^30
+      q == n \div w   rem == n % w IN          \* n = q w + rem, 0 <= rem < w
+  q * 65536 + ((rem * 32768) \div w) * 2      \* rem * 2^15 < 2^31
+ApproxFits(k, d, w) == Abs(k) <= 131072 /\ Abs((k * d) \div w) < 16000
 
 RInit(rect) ==
   [vb |-> DefaultViewBox, pal |-> DefaultPalette, cReg |-> DefaultPalette, nReg |-> ZeroRegs,
@@ -91,20 +105,26 @@ PaintOf(r, q) ==
 (* Affine map, fixed point.  A point is <<X, Y>> in units of 2^-16 pixel.    *)
 (* Each function returns [ok, v].                                            *)
 K64(f) == AsScaled(f, 6)
-AbsX(r, f) == LET a == K64(f)  P == (a.k - r.g.mx) * r.g.sx IN
-              IF a.ok /\ Abs(a.k) <= 32768 /\ Abs(a.k - r.g.mx) <= 65536 THEN [ok |-> Fits24(P), v |-> P]
-              ELSE [ok |-> FALSE, v |-> 0]
-AbsY(r, f) == LET a == K64(f)  P == (a.k - r.g.my) * r.g.sy IN
-              IF a.ok /\ Abs(a.k) <= 32768 /\ Abs(a.k - r.g.my) <= 65536 THEN [ok |-> Fits24(P), v |-> P]
-              ELSE [ok |-> FALSE, v |-> 0]
-RelX(r, f) == LET a == K64(f)  P == a.k * r.g.sx IN
-              IF a.ok /\ Abs(a.k) <= 65536
-                THEN [ok |-> Fits24(P) /\ Fits24(r.pen[1] + P) /\ Abs(r.pen[1] + P) < 1073741824, v |-> r.pen[1] + P]
-                ELSE [ok |-> FALSE, v |-> 0]
-RelY(r, f) == LET a == K64(f)  P == a.k * r.g.sy IN
-              IF a.ok /\ Abs(a.k) <= 65536
-                THEN [ok |-> Fits24(P) /\ Fits24(r.pen[2] + P) /\ Abs(r.pen[2] + P) < 1073741824, v |-> r.pen[2] + P]
-                ELSE [ok |-> FALSE, v |-> 0]
+AbsX(r, f) == LET a == K64(f) IN
+              IF ~a.ok \/ Abs(a.k) > 32768 \/ Abs(a.k - r.g.mx) > 65536 THEN [ok |-> FALSE, v |-> 0]
+              ELSE IF r.g.approx THEN [ok |-> ApproxFits(a.k - r.g.mx, r.g.dx, r.g.wx), v |-> ScaleApprox(a.k - r.g.mx, r.g.dx, r.g.wx)]
+              ELSE LET P == (a.k - r.g.mx) * r.g.sx IN [ok |-> Fits24(P), v |-> P]
+AbsY(r, f) == LET a == K64(f) IN
+              IF ~a.ok \/ Abs(a.k) > 32768 \/ Abs(a.k - r.g.my) > 65536 THEN [ok |-> FALSE, v |-> 0]
+              ELSE IF r.g.approx THEN [ok |-> ApproxFits(a.k - r.g.my, r.g.dy, r.g.wy), v |-> ScaleApprox(a.k - r.g.my, r.g.dy, r.g.wy)]
+              ELSE LET P == (a.k - r.g.my) * r.g.sy IN [ok |-> Fits24(P), v |-> P]
+RelX(r, f) == LET a == K64(f) IN
+              IF ~a.ok \/ Abs(a.k) > 65536 THEN [ok |-> FALSE, v |-> 0]
+              ELSE IF r.g.approx THEN [ok |-> ApproxFits(a.k, r.g.dx, r.g.wx) /\ Abs(r.pen[1]) < 536870912,
+                                       v |-> r.pen[1] + ScaleApprox(a.k, r.g.dx, r.g.wx)]
+              ELSE LET P == a.k * r.g.sx IN
+                   [ok |-> Fits24(P) /\ Fits24(r.pen[1] + P) /\ Abs(r.pen[1] + P) < 1073741824, v |-> r.pen[1] + P]
+RelY(r, f) == LET a == K64(f) IN
+              IF ~a.ok \/ Abs(a.k) > 65536 THEN [ok |-> FALSE, v |-> 0]
+              ELSE IF r.g.approx THEN [ok |-> ApproxFits(a.k, r.g.dy, r.g.wy) /\ Abs(r.pen[2]) < 536870912,
+                                       v |-> r.pen[2] + ScaleApprox(a.k, r.g.dy, r.g.wy)]
+              ELSE LET P == a.k * r.g.sy IN
+                   [ok |-> Fits24(P) /\ Fits24(r.pen[2] + P) /\ Abs(r.pen[2] + P) < 1073741824, v |-> r.pen[2] + P]
 Pt(px, py) == [ok |-> px.ok /\ py.ok, v |-> << px.v, py.v >>]
 AbsPt(r, fx, fy) == Pt(AbsX(r, fx), AbsY(r, fy))
 RelPt(r, fx, fy) == Pt(RelX(r, fx), RelY(r, fy))
@@ -112,7 +132,7 @@ RelPt(r, fx, fy) == Pt(RelX(r, fx), RelY(r, fy))
 Smooth(r, typ) ==
   IF r.sm[1] # typ THEN [ok |-> TRUE, v |-> r.pen]
   ELSE LET x == 2 * r.pen[1] - r.sm[2]  y == 2 * r.pen[2] - r.sm[3] IN
-       [ok |-> Fits24(x) /\ Fits24(y) /\ Abs(x) < 1073741824 /\ Abs(y) < 1073741824, v |-> << x, y >>]
+       [ok |-> (r.g.approx \/ (Fits24(x) /\ Fits24(y))) /\ Abs(x) < 1073741824 /\ Abs(y) < 1073741824, v |-> << x, y >>]
 
 (* expected rasteriser calls: [k, p (sequence of fixed-point numbers), i (integers)] *)
 RZ(k, p) == [k |-> k, p |-> p, i |-> << >>]
@@ -137,7 +157,7 @@ OffLattice(r) == Res([r EXCEPT !.g.ok = FALSE], << >>, "none")
 
 (* after a segment ending at point e with new smooth memory s *)
 Seg(r, rz, e, s) ==
-  Res([r EXCEPT !.pen = e, !.sm = s], rz, IF r.exact THEN "exact" ELSE "tol")
+  Res([r EXCEPT !.pen = e, !.sm = s], rz, IF r.exact /\ ~r.g.approx THEN "exact" ELSE "tol")
 
 DrawStep(r, call) ==
   LET op == call.op  f == call.f IN
@@ -197,14 +217,14 @@ DrawStep(r, call) ==
          LET e == AbsPt(r, f[1], f[2]) IN
          IF ~e.ok THEN OffLattice(r)
          ELSE Res([r EXCEPT !.pen = e.v, !.first = e.v, !.sm = << 0, 0, 0 >>, !.exact = TRUE],
-                  << RZ("ClosePath", << >>), RZ("MoveTo", e.v) >>, "exact")
+                  << RZ("ClosePath", << >>), RZ("MoveTo", e.v) >>, IF r.g.approx THEN "tol" ELSE "exact")
     [] op = "ClosePathRelMoveTo" ->
          \* closing returns the pen to the sub-path start; the move is relative to it
          LET r1 == [r EXCEPT !.pen = r.first]
              e  == RelPt(r1, f[1], f[2]) IN
          IF ~e.ok THEN OffLattice(r)
          ELSE Res([r EXCEPT !.pen = e.v, !.first = e.v, !.sm = << 0, 0, 0 >>],
-                  << RZ("ClosePath", << >>), RZ("MoveTo", e.v) >>, IF r.exact THEN "exact" ELSE "tol")
+                  << RZ("ClosePath", << >>), RZ("MoveTo", e.v) >>, IF r.exact /\ ~r.g.approx THEN "exact" ELSE "tol")
     [] OTHER -> Res(r, << >>, "none")
 
 RStep(r, call) ==
@@ -231,7 +251,7 @@ RStep(r, call) ==
          ELSE IF ~r.g.ok \/ ~e.ok THEN Res([r1 EXCEPT !.g.ok = FALSE], << >>, "none")
          ELSE Res([r1 EXCEPT !.pen = e.v, !.first = e.v, !.exact = TRUE, !.sm = << 0, 0, 0 >>],
                   << [k |-> "Reset", p |-> << >>, i |-> << r.rect[3] - r.rect[1], r.rect[4] - r.rect[2] >>],
-                     RZ("MoveTo", e.v) >>, "exact")
+                     RZ("MoveTo", e.v) >>, IF r.g.approx THEN "tol" ELSE "exact")
     [] op = "ClosePathEndPath" ->
          \* the path is closed and drawn exactly once, over the target rectangle, source point (0,0)
          IF ~r.en THEN (IF r.unspec THEN Res([r EXCEPT !.inPath = FALSE], << >>, "none")
